@@ -25,7 +25,11 @@ def sh(cmd, **kw):
 out = {'mutant': mdir, 'property': prop}
 try:
     r = sh('git -C /repo worktree add -q --detach %s HEAD' % wt); assert r.returncode == 0, r.stderr
-    demo = os.path.join(mdir, 'demo.py')
+    # run the demonstration from inside the scratch worktree (same relative place as in the author's
+    # worktree), so that demos locating the package relative to their own file import the scratch tree
+    ddir = os.path.join(wt, '_mutants', os.path.basename(mdir.rstrip('/')))
+    shutil.copytree(mdir, ddir)
+    demo = os.path.join(ddir, 'demo.py')
     r0 = sh('cd %s && timeout 900 /venv/bin/python %s' % (wt, demo))
     out['demo_clean_rc'] = r0.returncode; out['demo_clean_tail'] = (r0.stdout + r0.stderr)[-400:]
     r = sh('git -C %s apply %s' % (wt, os.path.join(mdir, 'patch.diff')))
